@@ -108,10 +108,26 @@ SAFE_METHODS = {
 }
 
 
+def _re_sub(it, pat, repl, s, *a, **k):
+    return re.sub(pat, (lambda m: repl(m)) if callable(repl) else repl, s, *a, **k)
+
+
+import textwrap as _textwrap
+
+PURE_STDLIB = {
+    'textwrap.dedent': lambda it, s: _textwrap.dedent(s), 'textwrap.indent': lambda it, s, p: _textwrap.indent(s, p),
+    're.sub': _re_sub, 're.match': lambda it, p, s, *a: re.match(p, s, *a), 're.fullmatch': lambda it, p, s, *a: re.fullmatch(p, s, *a),
+    're.search': lambda it, p, s, *a: re.search(p, s, *a), 're.split': lambda it, p, s, *a: re.split(p, s, *a), 're.findall': lambda it, p, s, *a: re.findall(p, s, *a),
+    're.escape': lambda it, s: re.escape(s),
+}
+
+
 class Interp:
     def __init__(self, isa=None, stubs=None, max_steps=20000, methods=None):
         self.isa = isa or {}          # kind -> set of base kinds
-        self.stubs = stubs or {}      # dotted callee text -> python callable(interp, *args, **kwargs)
+        # dotted callee text -> python callable(interp, *args, **kwargs); pure functions of the standard library are available by default
+        self.stubs = dict(PURE_STDLIB)
+        self.stubs.update(stubs or {})
         self.methods = methods or {}  # kind -> {method name: FunctionDef}: methods of the analysed class, interpreted when a stand-in is asked for them
         self.module = None            # ast.Module of the analysed code: its top-level constants and functions resolve free names
         self.steps = 0
@@ -294,7 +310,7 @@ class Interp:
                         return self.ev(st.value, Env())
                     if isinstance(st, ast.FunctionDef) and st.name == e.id:
                         return Closure(st, Env(), self)
-            if e.id[:1].isupper() or e.id in ('ast', 'sa', 're', 'copy', 'utils', 'steps', 'dt', 'datetime') or e.id in {k.split('.')[0] for k in self.stubs}:
+            if e.id[:1].isupper() or e.id in ('ast', 'sa', 're', 'copy', 'utils', 'steps', 'dt', 'datetime', 'textwrap') or e.id in {k.split('.')[0] for k in self.stubs}:
                 return ClassRef(e.id)       # a class / module of the repository: only used as callee or in isinstance
             raise AnalysisError(f'interpreter: free variable `{e.id}` (line {getattr(e, "lineno", "?")}) has no stand-in')
         if isinstance(e, ast.Attribute):
